@@ -256,6 +256,12 @@ func (f *frame) unop(x *ssa.UnOp) {
 		term := f.loadLoc(l, f.curHeap)
 		f.defineVal(x, term)
 		f.assume(e.typeInv(f.vals[x].term, x.Type(), 1))
+		if top := e.top; top != nil && top.contract != nil && top.contract.AssumeLoads != "" {
+			if _, isIface := x.Type().Underlying().(*types.Interface); isIface && l.kind != locCell {
+				e.pendingLoads = append(e.pendingLoads, SV{t: x.Type(), term: f.vals[x].term})
+				e.note("assumed (data-structure invariant, established by the constructors, not proved): " + top.contract.AssumeLoads + " holds of every interface value stored in a field or element")
+			}
+		}
 	case token.NOT:
 		f.defineVal(x, not(f.scalar(x.X)))
 	case token.SUB:
@@ -897,10 +903,19 @@ func (f *frame) deferCall(x *ssa.Defer) {
 }
 
 func (f *frame) runDefers(x *ssa.RunDefers) {
-	// normal exit: run deferred calls in LIFO order
+	// normal exit: run deferred calls in LIFO order; a defer statement counts only on
+	// paths that executed it (its block dominates this exit, or cannot reach it at all)
 	for i := len(f.defers) - 1; i >= 0; i-- {
 		d := f.defers[i]
-		f.applyCall(&d.instr.Call, nil, d.instr.Pos(), true)
+		db, rb := d.instr.Block(), x.Block()
+		if db.Dominates(rb) {
+			f.applyCall(&d.instr.Call, nil, d.instr.Pos(), true)
+			continue
+		}
+		if !blockReaches(db, rb) {
+			continue
+		}
+		bail("defer in %s is executed on some but not all paths to a return", f.fn.Name())
 	}
 }
 
@@ -930,4 +945,22 @@ func classifyPanicOperand(v ssa.Value) string {
 		return "foreign"
 	}
 	return "foreign"
+}
+
+func blockReaches(from, to *ssa.BasicBlock) bool {
+	seen := map[int]bool{}
+	stack := []*ssa.BasicBlock{from}
+	for len(stack) > 0 {
+		b := stack[len(stack)-1]
+		stack = stack[:len(stack)-1]
+		if seen[b.Index] {
+			continue
+		}
+		seen[b.Index] = true
+		if b == to {
+			return true
+		}
+		stack = append(stack, b.Succs...)
+	}
+	return false
 }
